@@ -86,6 +86,10 @@ def make(style, framing, body):
     status, reason, version = 200, 'OK', 'HTTP/1.1'
     method = 'GET'
     fields = [('Server', 'x')]
+    ctype = {'text': 'text/plain; charset=utf-8', 'binary': 'application/octet-stream',
+             'deflate': 'TEXT/Html'}.get(body)
+    if ctype:
+        fields.append(('Content-Type', ctype))
     if coding:
         fields.append(('Content-Encoding', coding))
     close = False
